@@ -535,8 +535,9 @@ def flushModP (m : ModId) : Prog Int := do
         let rest := q.dropWhile (fun x => !x.pill)
         let pilled := !rest.isEmpty
         -- messages before the pill become events; the pill itself is destroyed; the rest stays for stop()
-        modify fun s => s.updMod m fun md => { md with pipe := some (rest.drop 1) }
-        let evts := pre.map fun x => ({ kind := .ps, msg := some x, src := x.sub } : Evt)
+        -- events still being batched arrived earlier: they are handed over first
+        modify fun s => s.updMod m fun md => { md with pipe := some (rest.drop 1), batch := [] }
+        let evts := md.batch ++ pre.map fun x => ({ kind := .ps, msg := some x, src := x.sub } : Evt)
         callPubsubCb m evts
         let s ← getSt
         if pilled && isRP s m then do let _ ← stopP m true; pure 0 else pure 0
@@ -547,9 +548,10 @@ def flushModP (m : ModId) : Prog Int := do
 /-- `loop_start` -/
 def loopStartP : Prog Int := do
   modify fun s => s.updCtx fun c => { c with state := .looping, quit := false, quitCode := 0 }
+  -- the tick source is polled before any callback runs (a callback that sets a new tick polls it itself)
+  modify fun s => s.updCtx fun c => { c with tickPolled := c.tick != 0 }
   let _ ← iterMods evaluateP
   modify fun s => tellSystem s none none T_CTX_STARTED
-  modify fun s => s.updCtx fun c => { c with tickPolled := c.tick != 0 }
   pure 0
 
 /-- `loop_stop` (the context object `c` stays alive throughout, even if a callback releases it) -/
